@@ -313,6 +313,115 @@ REPLAYERS = {"dispatch": replay_dispatch, "part": replay_part, "kin": replay_kin
 SHARDABLE = True
 
 
+
+# ---- cross sections: singular strata of the combination coefficients -------------------------------------------------------------------
+
+XS_GRID = {"x": ["1/4", "1/2", "1"], "y": ["1", "1/2", "1/4"], "M2h": ["1", "1/2", "2", "1/4"]}
+
+
+def xs_float_run(case, vals):
+    """the real CrossSection -> EvaluatedCrossSection.get_result on plain Python floats (the numbers a card holds); returns None or the exception"""
+    from yv.props import c11
+
+    tens = {}
+
+    def mk(name):
+        tens.setdefault(name, 0.25 + 0.5 * (len(tens) % 3))
+        return tens[name]
+
+    import warnings
+
+    try:
+        with warnings.catch_warnings():
+            warnings.simplefilter("ignore")
+            c11.pairs_for(case, c11.params(values={k: float(v) for k, v in vals.items()}), mk, only_impl=True)
+    except Exception as e:  # noqa
+        return e
+    return None
+
+
+def replay_xs(args):
+    e = xs_float_run(args["case"], args["values"])
+    if e is None or is_clear_rejection(e):
+        return False, "finite/inf coefficients or an explicit rejection at this point"
+    return True, f"{args['case']} at {args['values']}: internal {type(e).__name__}: {str(e)[:100]} (admissible kinematics, no explicit rejection)"
+
+
+REPLAYERS["xs"] = replay_xs
+
+
+def run_xs_singular(chk):
+    """The coefficients of the documented combinations are rational functions of (x, y, Q2, M_h^2, M_W^2): every division met by the real code on
+    symbolic kinematics is an obligation `denominator != 0`.  Where the solver finds the denominator able to vanish INSIDE the admissible domain
+    (a singular stratum, e.g. FW at y^2/2 + 1 - y = M^2 x^2 y^2/Q2), the proxies cannot say what the code does (IEEE inf vs ZeroDivisionError):
+    the real code is then executed on plain floats at solver-chosen points of that stratum (preferring dyadic values, where the float
+    denominator is exactly 0.0) and must answer with numbers or an explicit rejection."""
+    from yadism.esf import exs
+    from yv.props import c11
+
+    nstrata = npoints = 0
+    for kind, pid in itertools.product(c11.XS_KINDS, [11, -12]):
+        case = dict(kind=kind, flavor="total", pid=pid)
+        cname = f"xs-singular:{kind}/pid{pid}"
+        with Ctx(chk.seed, track_defined=True) as ctx:
+            names = {}
+
+            def mk(name):
+                if name not in names:
+                    names[name] = ctx.var("T|" + name, None, None, wlo=-2, whi=2)
+                return names[name]
+
+            def body():
+                with npshim.patched((exs, "np", npshim.NPShim())):
+                    return c11.pairs_for(case, c11.params(ctx), mk)
+
+            ex = explore.Explorer(ctx, max_paths=16, timeout_ms=5000)
+            paths = ex.run(body)
+            chk.paths += len(paths)
+            seen = set()
+            kin = [n for n in ("x", "y", "Q2", "M2h", "M2W", "GF", "pol") if n in ctx.vars]
+            for okind, cond, pc in ctx.obligations:
+                if okind != "div" or cond.get_id() in seen:
+                    continue
+                seen.add(cond.get_id())
+                chk.obligations += 1
+                chk.evaluations += 1
+                chk.nontrivial.add(cname)
+                base = list(ctx.domain) + list(ctx.atom_facts) + list(pc) + [z3.Not(cond)]
+                v = chk.prover.check(base, cname + ":denominator can vanish", want_model=True)
+                if v.status == "unsat":
+                    chk.discharged += 1      # regular everywhere on the domain: the symbolic value is a real number
+                    continue
+                if v.status == "unknown":
+                    chk.inconclusive_note(f"{cname}: singular stratum undecided")
+                    continue
+                nstrata += 1
+                # points of the stratum: dyadic ones first (grid on x, y, M_h^2; the solver completes the rest), then the solver's own model
+                pts = []
+                for gx, gy, gm in itertools.product(XS_GRID["x"], XS_GRID["y"], XS_GRID["M2h"]):
+                    if len(pts) >= 6:
+                        break
+                    fix = [ctx.vars[n][0] == z3.RealVal(val) for n, val in (("x", gx), ("y", gy), ("M2h", gm)) if n in ctx.vars]
+                    w = chk.prover.check(base + fix, cname + ":dyadic point", want_model=True)
+                    if w.status == "sat":
+                        pts.append(explore.model_to_assign(ctx, w.model))
+                pts.append(explore.model_to_assign(ctx, v.model))
+                bad = None
+                for asg in pts:
+                    vals = {n: float(asg.get(n, ctx.assign.get(n, 1))) for n in kin}
+                    npoints += 1
+                    e = xs_float_run(case, vals)
+                    if e is not None and not is_clear_rejection(e):
+                        bad = (vals, e)
+                        break
+                if bad is None:
+                    chk.discharged += 1
+                else:
+                    chk.report(f"xs:{kind}:{type(bad[1]).__name__}", f"{cname}: internal {type(bad[1]).__name__}: {str(bad[1])[:100]} on the stratum {str(z3.simplify(z3.Not(cond)))[:120]}",
+                               "xs", dict(case=case, values=bad[0]))
+    chk.section("xs_singular", strata=nstrata, float_points_executed=npoints)
+
+
 def run(chk, only=None):
     import yadism.coefficient_functions as cf
     from yadism import observable_name as on
@@ -552,6 +661,9 @@ def run(chk, only=None):
                             chk.prove(f"{cname}/path{i}: rejection only outside the domain", outside, facts, key=f"kin:rejects-inside:{kind}",
                                       replay=lambda m, case=case, vals=vals: ("kin", dict(case=case, values=vals(m), expect_ok=True)),
                                       what=f"{cname}: admissible kinematics are rejected")
+    # ---- C2: cross sections on the strata where a coefficient of the documented combination is singular ----
+    if only in (None, "xs") and chk.first:
+        run_xs_singular(chk)
     # ---- D ----
     if only in (None, "scrub") and chk.first:
         names = [f"{k}_{f}" for k in on.kinds if k != on.fake_kind for f in on.external_flavors] + [k for k in on.sfs]
